@@ -70,6 +70,8 @@ def generate(rng, tier) -> dict:
             ops.append({"gulp": max(1, rng.choice([1, 2, 7, rng.randint(1, N), N, N + 3, max(1, N // 3), max(1, N // 4)]))})
         if rng.random() < 0.1:
             ops[rng.randrange(2)]["gulp"] = None  # gulp left at its default
+        if rng.random() < 0.12:
+            ops[0]["reentrant"] = True  # the allocator callback of this fold runs a complete fold on another reader
         sc["ops"] = ops
         from .c06 import gen_pre
 
@@ -321,6 +323,22 @@ def execute(sc, ctx) -> None:
                 K.fold = spy
             try:
                 gkw = {} if gulp is None else {"gulp": gulp}
+                if op.get("reentrant") and not sc["faults"]:
+                    state = {"done": False}
+
+                    def alloc(n, _state=state):
+                        # a callback the caller owns runs in the middle of fold A: it folds the same file set
+                        # through a second reader (same cube geometry) to completion, then hands out the buffer
+                        if not _state["done"]:
+                            _state["done"] = True
+                            rb = open_reader("C11", fs.paths)
+                            cb = rb.fold(period, sc["dm"], accel=sc["accel"], nbins=nbins, nints=nints, nbands=sc["nbands"], gulp=max(1, N // 2), quiet=True)
+                            _state["inner"] = np.asarray(cb.data).copy()
+                            rb._file.close()
+                        return bytearray(n)
+
+                    gkw["allocator"] = alloc
+                    ctx.probe("reentrant-fold-inside-allocator")
                 cube = reader.fold(period, sc["dm"], accel=sc["accel"], nbins=nbins, nints=nints, nbands=sc["nbands"], quiet=True, **gkw)
             except SimLivelock as e:
                 raise Violation("C11/Filterbank.fold/livelock", str(e), info) from None
@@ -344,7 +362,9 @@ def execute(sc, ctx) -> None:
                     raise mk("raised", repr(raised)[:300])
                 ctx.probe("fault-raised")
                 continue
-            compare_cube(cube.data, seen.get("count_ar"), sums, cnts, mk, ctx)
+            compare_cube(cube.data, None if op.get("reentrant") else seen.get("count_ar"), sums, cnts, mk, ctx)
+            if op.get("reentrant") and not sc["faults"] and "inner" in state:
+                compare_cube(state["inner"], None, sums, cnts, lambda c, d: mk("inner-fold-" + c, d), ctx)
             if spec["mode"] == "pulse":
                 check_pulse(np.asarray(cube.data), cnts, mk)
             if held is not None and np.nan_to_num(np.asarray(held[0])).tobytes() != held[1]:
